@@ -327,7 +327,17 @@ public:
 
     void bvisit(const Beta &x)
     {
+#if MPFR_VERSION_MAJOR > 3
+        // Evaluate the arguments at the working precision.  The symbolic
+        // rewrite gamma(x)*gamma(y)/gamma(x+y) would fold floating point
+        // leaves (RealDouble, RealMPFR) at their own, lower precision.
+        mpfr_class t(mpfr_get_prec(result_));
+        apply(result_, *(x.get_args()[0]));
+        apply(t.get_mpfr_t(), *(x.get_args()[1]));
+        mpfr_beta(result_, result_, t.get_mpfr_t(), rnd_);
+#else
         apply(result_, *(x.rewrite_as_gamma()));
+#endif
     };
 
     void bvisit(const Constant &x)
